@@ -181,8 +181,37 @@ class StaleTime:
                 return k.value
         return c.args[0] if c.args else None
 
+    def _callee_may_return_fresh_events(self, c: ast.AST) -> bool:
+        """`self.<collaborator>.m(...)` (a non-generator method of another component, resolved through the attribute's type) with a return
+        value that is, or is a list display containing, an Event stamped from the current time — e.g. `self._pool.release(conn)` returning
+        `[idle_timeout_event]`.  May-analysis: one such return suffices (the other returns hand over nothing)."""
+        if not (isinstance(c, ast.Call) and isinstance(c.func, ast.Attribute) and (path_of(c.func.value) or "").startswith("self._")):
+            return False
+        try:
+            callees = self.prog.resolve_call(self.fn, c)
+        except Exception:
+            return False
+        if not callees or len(callees) > 3:
+            return False
+        for cal in callees:
+            if cal.is_generator:
+                continue
+            evp = {p_ for p_ in cal.params() if p_ in ("event", "evt", "ev", "request_event")}
+            for r in [s_ for s_ in walk_stmts(cal.node.body) if isinstance(s_, ast.Return) and s_.value is not None]:
+                elts = r.value.elts if isinstance(r.value, ast.List) else [r.value]
+                for v in elts:
+                    if isinstance(v, ast.Name):
+                        defs = [s_.value for s_ in walk_stmts(cal.node.body) if isinstance(s_, ast.Assign) and path_of(s_.targets[0]) == v.id]
+                        v = defs[-1] if len(defs) == 1 else v
+                    t = self._is_emission_ctor(v)
+                    if t is not None and any(is_time_source(n_, evp) for n_ in walk_scope(t)):
+                        return True
+        return False
+
     def _helper_returns_fresh_event(self, c: ast.AST) -> bool:
         """`self.m(...)` whose every return value is an Event stamped from a fresh time source (e.g. `_schedule_next()`)."""
+        if self._callee_may_return_fresh_events(c):
+            return True
         if not (isinstance(c, ast.Call) and isinstance(c.func, ast.Attribute) and path_of(c.func.value) == "self"):
             return False
         callees = self.prog.resolve_call(self.fn, c)
@@ -348,8 +377,13 @@ class StaleTime:
                     ctors = [c for arg in a_.value.args for c in walk_scope(arg) if self._is_emission_ctor(c) is not None]
                     if any(self._fresh_stamped(self._is_emission_ctor(c), out) for c in ctors) or any(self._helper_returns_fresh_event(arg) for arg in a_.value.args):
                         holders.append((a_.value.func.value.id, False))
-                    elif a_.value.func.attr == "clear":
-                        pass
+                    else:
+                        # `lst.extend(other)` / `lst.append(x)` where the argument already holds stamped events: the receiver holds them too
+                        for arg in a_.value.args:
+                            if isinstance(arg, ast.Name) and f"@ev:{arg.id}" in out:
+                                out = dict(out)
+                                key = f"@ev:{a_.value.func.value.id}"
+                                out[key] = out.get(key, frozenset()) | out[f"@ev:{arg.id}"]
                 elif isinstance(a_, ast.Expr) and isinstance(a_.value, ast.Call) and isinstance(a_.value.func, ast.Attribute) \
                         and a_.value.func.attr == "clear" and isinstance(a_.value.func.value, ast.Name) and f"@ev:{a_.value.func.value.id}" in out:
                     out = dict(out)
